@@ -37,11 +37,19 @@ class RouteWorld(E2EWorld):
 
     def build(self):
         st = super().build()
-        st.probed = False
+        st.probed = None
         return st
+
+    def _ack_family(self, i):
+        k, d, m, w, c = self.shapes[i]
+        return k in ("ACKE", "ACKF") and w == self.shapes[0][3] and c == self.shapes[0][4]
 
     def enabled(self, st):
         if st.probed:
+            # a second probe, only within the small family of ACK shapes and at the same handler: routing /
+            # admission of one ACK must not depend on an ACK seen before
+            if st.probed[0] == 1 and self._ack_family(st.probed[2]):
+                return [("probe", st.probed[1], i) for i in range(len(self.shapes)) if self._ack_family(i)]
             return []
         evs = super().enabled(st)
         for who in ("S", "D"):
@@ -73,7 +81,7 @@ class RouteWorld(E2EWorld):
         obs, msgs = ent.step(pdu)
         if "exc" in obs:
             out["exc"] = obs["exc"]
-        st.probed = True
+        st.probed = [1, who, i] if not st.probed else [2, who, i]
         return out
 
     def check(self, st, ev, obs):
